@@ -656,7 +656,9 @@ def monHs (isServer : Bool) (lines : Array String) (cbSpec : String) (statusLine
       finishing := true
     | "res" :: "panic" :: _ => panicked := true
     | _ => pure ()
-  if panicked then out := out ++ ["mon C07 FAIL panic-handshake"] else out := out ++ ["mon C07 ok"]
+  -- a handshake either yields a WebSocket or fails with an error: a panic is neither
+  if panicked then out := out ++ ["mon C07 FAIL panic-handshake", s!"mon {if isServer then "C15" else "C16"} FAIL panic-handshake"]
+  else out := out ++ ["mon C07 ok"]
   -- the outcome does not depend on the segmentation: a proper prefix of a head is not an error, and
   -- once the head is complete the stage stops reading
   let own := if isServer then "C15" else "C16"
@@ -1089,6 +1091,8 @@ partial def runFsCase (lines : Array String) : Array String := Id.run do
   let mut out : Array String := #[]
   -- `FrameCodec::new(READ_BUF_LEN)`: no write batching, no bound on the write buffer
   let mut codec : Codec := { maxOut := usizeMax, writeLen := 0 }
+  -- what the implementation did, for the monitors: (kind, tokens after the kind, its res line, its wire bytes)
+  let mut implOps : Array (String × List String × List String × Bytes) := #[]
   let mut i := 0
   while i < lines.size do
     let line := lines[i]!
@@ -1105,13 +1109,17 @@ partial def runFsCase (lines : Array String) : Array String := Id.run do
       out := out.push line
       let mut j := i + 1
       let mut ev : Events := {}
+      let mut ires : List String := []
+      let mut iwire : Bytes := []
       while j < lines.size do
         match words lines[j]! with
         | "io" :: evs => ev := parseIo evs; j := j + 1
-        | "res" :: _ => j := j + 1
+        | "res" :: r => ires := r; j := j + 1
+        | "wire" :: w :: _ => iwire := unhex w; j := j + 1
         | "wire" :: _ => j := j + 1
         | _ => break
       i := j
+      implOps := implOps.push (kind, rest, ires, iwire)
       let t0 : Transport := { rd := ev.rd, wr := ev.wr, fl := ev.fl }
       let frameOf : Option Frame := match parseMessage rest with
         | some (.frame f) => some f
@@ -1160,6 +1168,41 @@ partial def runFsCase (lines : Array String) : Array String := Id.run do
         out := out.push line
         i := i + 1
     | [] => i := i + 1
+  -- monitors on the implementation's lines: what a FrameSocket puts on the wire is, frame by frame,
+  -- what was written, in order; a flush that returns Ok leaves nothing behind
+  let bad : Option String := Id.run do
+    let mut bad : Option String := none
+    let mut expected : List (Bool × Nat × Nat × Bytes × Bytes) := []
+    let mut wire : Bytes := []
+    let mut live := true
+    for (kind, rest, res, w) in implOps do
+      if live then
+        wire := wire ++ w
+        if res.head? == some "panic" then live := false
+        else
+          if kind == "fwrite" || kind == "fsend" then
+            let queued := res.head? == some "ok" || (match res with | "err" :: e :: _ => e.startsWith "Io." | _ => false)
+            match rest with
+            | "frame" :: bits :: opc :: mask :: payload :: _ =>
+              let b := bits.toList
+              let bit (k : Nat) (v : Nat) : Nat := if b[k]? == some '1' then v else 0
+              if queued then
+                expected := expected ++ [(b[0]? == some '1', bit 1 4 + bit 2 2 + bit 3 1, opc.toNat?.getD 255,
+                  (if mask == "-" then [] else unhex mask), unhex payload)]
+            | _ => live := false
+          let (fs, tail) := Mon.wireFrames wire
+          let onWire := fs.map fun f => (f.fin, f.rsv, f.opcode, f.key, f.payload)
+          if !(onWire.length ≤ expected.length && onWire == expected.take onWire.length) then
+            bad := bad <|> some "frame-socket-wire-differs-from-frames-written"
+          if (kind == "fflush" || kind == "fsend") && res == ["ok", "unit"] then
+            if onWire.length != expected.length || !tail.isEmpty then
+              bad := bad <|> some "frame-socket-flush-ok-but-data-unsent"
+    return bad
+  let mons : Array String := match bad with
+    | some b => #[s!"mon C10 FAIL {b}", s!"mon C01 FAIL {b}", s!"mon C19 FAIL {b}", s!"mon C14 FAIL {b}"]
+    | none => #["mon C10 ok", "mon C01 ok", "mon C19 ok", "mon C14 ok"]
+  -- the verdicts go in front of the closing `end` line
+  if out.back? == some "end" then out := out.pop ++ mons ++ #["end"] else out := out ++ mons
   return out
 
 def parseOp (body : List String) : Option Op :=
